@@ -50,7 +50,9 @@ def generate(ctx):
                    "tr": round(rng.uniform(0.1, 3.0), 3)}),
                "p": rng.choice([0.2, 0.5]), "seed": rng.randrange(1 << 30), "queries": queries,
                # step time reached through the dt setter after construction instead of the constructor
-               "built_dt": rng.choice([None, None, None, 2 * dt, 0.5 * dt, dt + 0.25])}
+               "built_dt": rng.choice([None, None, None, 2 * dt, 0.5 * dt, dt + 0.25]),
+               # clear() in the middle of the run: everything before it equals the resting state from then on
+               "clear_at": rng.choice([None, None, 3, 5, 8])}
 
 
 def _build(desc, inplace):
@@ -218,22 +220,30 @@ def run_case(ctx, desc):
     orc = _Oracle(desc, full)
     T = desc["T"]
     tag = f"{kind}/dt{desc['dt']}/d{desc['delay_steps']}/tol{desc['tol']}/{desc['interp']}"
-    for t in range(T):
+    t0 = 0
+    for tabs in range(T):
+        if tabs and desc.get("clear_at") == tabs:
+            syn.clear()
+            twin.clear()
+            orc = _Oracle(desc, full)
+            t0 = tabs
+            ctx.count("clears")
+        t = tabs - t0      # time since the last clear: the oracle knows nothing older
         tr = desc["train"]
         if tr == "random":
             s = g.random(full) < desc["p"]
         elif tr == "ones":
             s = np.ones(full, dtype=bool)
         elif tr == "impulse":
-            s = np.full(full, t == 2)
+            s = np.full(full, tabs == 2)
         elif tr == "alternating":
-            s = np.full(full, t % 2 == 0)
+            s = np.full(full, tabs % 2 == 0)
         else:
             s = np.zeros(full, dtype=bool)
         inj = g.normal(size=full) if kind == "deltaplus" else np.zeros(full)
         orc.step(s, inj)
         st = torch.from_numpy(s.astype(np.float64))  # float64 0/1: a bool input would make the charge term float32
-        rdesc = {**desc, "T": t + 1, "queries": desc["queries"][: t + 1]}
+        rdesc = {**desc, "T": tabs + 1, "queries": desc["queries"][: tabs + 1]}
         try:
             args = (st, torch.from_numpy(inj.copy())) if kind == "deltaplus" else (st,)
             out = syn(*args)
@@ -252,7 +262,7 @@ def run_case(ctx, desc):
         if not (torch.equal(out, out2) and torch.equal(syn.current, twin.current) and torch.equal(syn.spike, twin.spike)):
             return ctx.violation(f"{kind}.inplace_vs_outofplace.step", "in-place and out-of-place twins disagree", rdesc)
         ctx.count("twin_comparisons")
-        for q in desc["queries"][t]:
+        for q in desc["queries"][tabs]:
             gq = np.random.default_rng(q["qseed"])
             ks, frs, cls, sel, shp = _selector(desc, q, full, gq)
             what = q["what"]
